@@ -176,20 +176,23 @@ def run_synscan(out_dir):
 
 
 def ensure_facts(all_targets=False):
-    os.makedirs(os.path.join(CACHE, "facts"), exist_ok=True)
+    # fact sets of scratch trees (VERIF_REPO) live apart so that they never evict the sets of /repo itself
+    sub = "facts" if os.path.realpath(REPO) == "/repo" else "facts-scratch"
+    keep = 4 if sub == "facts" else 2
+    os.makedirs(os.path.join(CACHE, sub), exist_ok=True)
     lock_path = os.path.join(CACHE, "lock")
     with open(lock_path, "w") as lock:
         fcntl.flock(lock, fcntl.LOCK_EX)
         h, nfiles = tree_hash()
-        d = os.path.join(CACHE, "facts", h + ("-all" if all_targets else ""))
+        d = os.path.join(CACHE, sub, h + ("-all" if all_targets else ""))
         if not os.path.isdir(d):
             run_extraction(d, all_targets)
-            # keep the cache small: the 4 most recent fact sets per flavour
-            root = os.path.join(CACHE, "facts")
+            # keep the cache small: the most recent fact sets per flavour
+            root = os.path.join(CACHE, sub)
             same = [os.path.join(root, o) for o in os.listdir(root)
                     if o.endswith("-all") == all_targets and not o.endswith(".partial")]
             same.sort(key=os.path.getmtime, reverse=True)
-            for full in same[4:]:
+            for full in same[keep:]:
                 if full != d:
                     shutil.rmtree(full, ignore_errors=True)
         else:
